@@ -1882,7 +1882,10 @@ impl<'a, const C: usize, const R: usize, T: 'a + Copy + std::fmt::Debug> Layout<
                 self.oneshot.timeout = oneshot.timeout;
                 self.oneshot.end_config = oneshot.end_config;
                 if let Some(overflow) = self.oneshot.keys.push_back((coord.0, coord.1)) {
-                    self.event(Event::Release(overflow.0, overflow.1));
+                    // A key that still has a newer entry remains an active one-shot key.
+                    if !self.oneshot.keys.contains(&overflow) {
+                        self.event(Event::Release(overflow.0, overflow.1));
+                    }
                 }
                 return custom;
             }
